@@ -196,6 +196,32 @@ fn answer(a: &[&str]) -> String {
             }
             match server.join() { Ok(s) if s.starts_with("IDS") => s, Ok(s) => format!("REFUSED {} / {}", client, s), Err(_) => "PANIC".into() }
         }
+        // pdu_big <L>: write an A-ASSOCIATE-RQ holding one unknown user sub-item with L content bytes, then read the bytes back
+        "pdu_big" => {
+            use dicom_ul::pdu::{read_pdu, write_pdu, AssociationRQ, Pdu, PresentationContextProposed, UserVariableItem};
+            let l: usize = a[1].parse().unwrap();
+            let pdu = Pdu::AssociationRQ(AssociationRQ {
+                protocol_version: 1,
+                calling_ae_title: "A".into(),
+                called_ae_title: "B".into(),
+                application_context_name: "1.2.840.10008.3.1.1.1".into(),
+                presentation_contexts: vec![PresentationContextProposed { id: 1, abstract_syntax: "1.2.840.10008.1.1".into(), transfer_syntaxes: vec!["1.2.840.10008.1.2".into()] }],
+                user_variables: vec![UserVariableItem::Unknown(0x77, vec![0x41; l])],
+            });
+            let mut bytes: Vec<u8> = Vec::new();
+            match write_pdu(&mut bytes, &pdu) {
+                Err(e) => format!("WRITE_ERR {}", format!("{}", e).replace(' ', "_")),
+                Ok(()) => {
+                    let mut cur = &bytes[..];
+                    match read_pdu(&mut cur, 16_378, false) {
+                        Ok(Some(p)) if p == pdu && cur.is_empty() => "ROUNDTRIP_OK".into(),
+                        Ok(Some(_)) => format!("CORRUPT different_pdu_or_{}_bytes_left", cur.len()),
+                        Ok(None) => "CORRUPT reads_as_incomplete".into(),
+                        Err(e) => format!("CORRUPT read_error_{}", format!("{}", e).replace(' ', "_")),
+                    }
+                }
+            }
+        }
         // ts_dump -> one line per registered transfer syntax
         "ts_dump" => {
             use dicom_encoding::transfer_syntax::TransferSyntaxIndex;
